@@ -92,16 +92,19 @@ structure Variant where
   leakChecksFirst : Bool      -- add_leak tests both control names before it adds the first control
   sourceNodeMoves : Bool      -- the Source.node_name setter moves the node usage record
   assignRegisters : Bool      -- assign_demand registers the usage of the pattern it creates (through add_demand)
+  renameMoves : Bool          -- the Source.name setter moves the registry entry and the usage records
   deriving DecidableEq, Repr
 
-def coded : Variant := ⟨false, false, false, false, false, false, false, false, false, false, false, false, false, false, false⟩
-def repaired : Variant := ⟨true, true, true, true, true, true, true, true, true, true, true, true, true, true, true⟩
+def coded : Variant := ⟨false, false, false, false, false, false, false, false, false, false, false, false, false, false, false, false⟩
+def repaired : Variant := ⟨true, true, true, true, true, true, true, true, true, true, true, true, true, true, true, true⟩
 /-- the tree with the repairs of rounds 1-3 but without those of round 4 -/
-def round3 : Variant := ⟨true, true, true, true, true, true, true, true, true, true, true, true, false, false, false⟩
+def round3 : Variant := ⟨true, true, true, true, true, true, true, true, true, true, true, true, false, false, false, false⟩
+/-- the tree with the repairs of rounds 1-5 (assign_demand registers), before the source rename repair -/
+def round5 : Variant := ⟨true, true, true, true, true, true, true, true, true, true, true, true, true, true, true, false⟩
 /-- the tree with the repairs of rounds 1-4 -/
-def round4 : Variant := ⟨true, true, true, true, true, true, true, true, true, true, true, true, true, true, false⟩
+def round4 : Variant := ⟨true, true, true, true, true, true, true, true, true, true, true, true, true, true, false, false⟩
 /-- the tree with the first nine repairs (round 1) but without the three of round 2 -/
-def round1 : Variant := ⟨true, true, true, true, true, true, true, true, true, false, false, false, false, false, false⟩
+def round1 : Variant := ⟨true, true, true, true, true, true, true, true, true, false, false, false, false, false, false, false⟩
 
 /-! ### association lists (OrderedDict) and ordered sets -/
 
@@ -183,6 +186,12 @@ def removeUsage (v : Variant) (s : Reg) (r : RegId) (k : Name) (u : User) : Opti
 def removeUserAll (s : Reg) (r : RegId) (u : User) : Reg :=
   (AL.keys (s.usage r)).foldl (fun acc k => removeUsageT acc r k u) s
 
+/-- `remove_usage` with a possibly falsy key where the record is known to be tolerated (repaired code only) -/
+def removeUsage?T (s : Reg) (r : RegId) (k : Option Name) (u : User) : Reg :=
+  match k with
+  | none => s
+  | some k => removeUsageT s r k u
+
 def removeUsage? (v : Variant) (s : Reg) (r : RegId) (k : Option Name) (u : User) : Option Reg :=
   match k with
   | none => some s
@@ -263,16 +272,18 @@ inductive Site
   | linkDelStart | linkDelEnd | linkDelHeadloss | linkDelSpeed | linkDelPumpCurve
   | addDemand | addFire | removeFire | volCurveRemove | volCurveAdd | headPatRemove | headPatAdd | speedPatRemove | speedPatAdd
   | pumpCurveRemove | pumpCurveAdd | pumpCurveType | powerRemove | headlossRemove | headlossAdd | headlossType
-  | sourceInitPat | sourceInitNode | sourceNodeRemove | sourceNodeAdd
+  | sourceInitPat | sourceInitNode | srcRenamePatRemove | srcRenamePatAdd | srcRenameNodeRemove | srcRenameNodeAdd
+  | sourceNodeRemove | sourceNodeAdd
   deriving DecidableEq, Repr
 
 /-- the registry a call site talks to -/
 @[reducible] def siteReg : Site → RegId
   | .linkInitStart | .linkInitEnd | .startSetRemove | .startSetAdd | .endSetRemove | .endSetAdd => .node
   | .addSourceNode | .removeSourceNode | .srcDelNode | .linkDelStart | .linkDelEnd | .sourceInitNode | .sourceNodeRemove
-  | .sourceNodeAdd => .node
+  | .sourceNodeAdd | .srcRenameNodeRemove | .srcRenameNodeAdd => .node
   | .addSourcePat | .removeSourcePat | .srcDelPat | .nodeDelJunction | .nodeDelReservoir | .linkDelSpeed | .addDemand | .addFire
-  | .removeFire | .headPatRemove | .headPatAdd | .speedPatRemove | .speedPatAdd | .sourceInitPat => .pattern
+  | .removeFire | .headPatRemove | .headPatAdd | .speedPatRemove | .speedPatAdd | .sourceInitPat | .srcRenamePatRemove
+  | .srcRenamePatAdd => .pattern
   | .curveSetitemType | .nodeDelTank | .linkDelHeadloss | .linkDelPumpCurve | .volCurveRemove | .volCurveAdd | .pumpCurveRemove
   | .pumpCurveAdd | .pumpCurveType | .powerRemove | .headlossRemove | .headlossAdd | .headlossType => .curve
 
@@ -319,6 +330,10 @@ def siteInfo : Site → String × String × String × String
   | .headlossType => ("GPValve.headloss_curve_name.setter", "set_curve_type", "name", "'HEADLOSS'")
   | .sourceInitPat => ("Source.__init__", "add_usage", "self._strength_timeseries.pattern_name", "(name, 'Source')")
   | .sourceInitNode => ("Source.__init__", "add_usage", "node_name", "(name, 'Source')")
+  | .srcRenamePatRemove => ("Source.name.setter", "remove_usage", "pat", "(self._name, 'Source')")
+  | .srcRenamePatAdd => ("Source.name.setter", "add_usage", "pat", "(value, 'Source')")
+  | .srcRenameNodeRemove => ("Source.name.setter", "remove_usage", "self._node_name", "(self._name, 'Source')")
+  | .srcRenameNodeAdd => ("Source.name.setter", "add_usage", "self._node_name", "(value, 'Source')")
   | .sourceNodeRemove => ("Source.node_name.setter", "remove_usage", "self._node_name", "(self._name, 'Source')")
   | .sourceNodeAdd => ("Source.node_name.setter", "add_usage", "value", "(self._name, 'Source')")
 
@@ -329,7 +344,19 @@ def allSites : List Site :=
    .nodeDelJunction, .nodeDelReservoir, .nodeDelTank, .linkDelStart, .linkDelEnd, .linkDelHeadloss, .linkDelSpeed, .linkDelPumpCurve,
    .addDemand, .addFire, .removeFire, .volCurveRemove, .volCurveAdd, .headPatRemove, .headPatAdd, .speedPatRemove, .speedPatAdd,
    .pumpCurveRemove, .pumpCurveAdd, .pumpCurveType, .powerRemove, .headlossRemove, .headlossAdd, .headlossType,
-   .sourceInitPat, .sourceInitNode, .sourceNodeRemove, .sourceNodeAdd]
+   .sourceInitPat, .sourceInitNode, .srcRenamePatRemove, .srcRenamePatAdd, .srcRenameNodeRemove, .srcRenameNodeAdd,
+   .sourceNodeRemove, .sourceNodeAdd]
+
+def isRenameSite : Site → Bool
+  | .srcRenamePatRemove | .srcRenamePatAdd | .srcRenameNodeRemove | .srcRenameNodeAdd => true
+  | _ => false
+
+def siteRow (st : Site) : String × String × String × String × String :=
+  ((siteInfo st).1, (siteInfo st).2.1, regS (siteReg st), (siteInfo st).2.2.1, (siteInfo st).2.2.2)
+
+/-- the tree before fixes/C14-source-rename-moves-registry-entry.patch has no calls in `Source.name.setter` -/
+def expectedUsageCallsBeforeRename : List (String × String × String × String × String) :=
+  (allSites.filter (fun st => !isRenameSite st)).map siteRow
 
 def expectedUsageCalls : List (String × String × String × String × String) :=
   allSites.map fun st => ((siteInfo st).1, (siteInfo st).2.1, regS (siteReg st), (siteInfo st).2.2.1, (siteInfo st).2.2.2)
@@ -387,6 +414,8 @@ inductive Op
   | addLeak (node : Name) (start end_ : Bool)                   -- node.add_leak(wn, area, start_time?, end_time?)
   | removeLeak (node : Name)                                    -- node.remove_leak(wn)
   | setSourceNode (src node : Name)                             -- wn.get_source(src).node_name = node
+  | renameSource (src new : Name)                               -- wn.get_source(src).name = new
+  | clearDemands (node : Name)                                  -- wn.get_node(node).demand_timeseries_list.clear()
   | assignDemand (node pat : Name)                              -- wn.assign_demand(DataFrame({node: ...}), prefix): pat = prefix + node
   | addTank (name : Name) (curve : Option Name)
   | addReservoir (name : Name) (pat : Option Name)
@@ -587,6 +616,35 @@ def assignDemand (v : Variant) (s : Reg) (n p : Name) : Reg × Out :=
       let s1 := { s with patterns := s.patterns ++ [p] }
       let s2 := if v.assignRegisters then addUsage s1 (siteReg .addDemand) p (n, .junction) else s1
       ({ s2 with nodes := AL.set s2.nodes n { i with demands := [(some p, false)] } }, .ok)
+
+/-- `wn.get_source(old).name = new` (repaired: refuses a name that is taken, moves the usage records and the registry entry;
+before the repair only the attribute changed, which the model does not carry) -/
+def renameSource (v : Variant) (s : Reg) (old new : Name) : Reg × Out :=
+  match AL.get? s.sources old with
+  | none => (s, .error)
+  | some si =>
+    if !v.renameMoves || new = old then (s, .ok)
+    else if AL.has s.sources new then (s, .error)
+    else
+      let s1 := addUsage? (removeUsage?T s (siteReg .srcRenamePatRemove) si.pat (old, .source)) (siteReg .srcRenamePatAdd) si.pat (new, .source)
+      let s2 := addUsage (removeUsageT s1 (siteReg .srcRenameNodeRemove) si.node (old, .source)) (siteReg .srcRenameNodeAdd) si.node (new, .source)
+      ({ s2 with sources := AL.set (AL.del s2.sources old) new si }, .ok)
+
+/-- `junction.demand_timeseries_list.clear()` -/
+def clearDemands (s : Reg) (n : Name) : Reg × Out :=
+  match AL.get? s.nodes n with
+  | none => (s, .error)
+  | some i =>
+    if i.kind ≠ .junction then (s, .error)
+    else ({ s with nodes := AL.set s.nodes n { i with demands := [] } }, .ok)
+
+/-- `junction.demand_timeseries_list.insert(idx, (base, pat))`: a plain list operation, no registry is told (NOT part of `Op`) -/
+def insertDemandRaw (s : Reg) (n : Name) (idx : Nat) (pat : Option Name) : Reg × Out :=
+  match AL.get? s.nodes n with
+  | none => (s, .error)
+  | some i =>
+    if i.kind ≠ .junction then (s, .error)
+    else ({ s with nodes := AL.set s.nodes n { i with demands := (i.demands.take idx) ++ [(pat, false)] ++ (i.demands.drop idx) } }, .ok)
 
 def leakCtl (n : Name) (isStart : Bool) : Name := 1000000 + 2 * n + (if isStart then 0 else 1)
 
@@ -843,6 +901,8 @@ def step (v : Variant) (s : Reg) : Op → Reg × Out
   | .removeLeak n => removeLeak s n
   | .setSourceNode n nd => setSourceNode v s n nd
   | .assignDemand n p => assignDemand v s n p
+  | .renameSource a b => renameSource v s a b
+  | .clearDemands n => clearDemands s n
   | .addTank n c => addTank v s n c
   | .addReservoir n p => addReservoir v s n p
   | .addPipe n a b => addPipe v s n a b
